@@ -61,3 +61,25 @@ Theorem C01_fragment_not_vacuous :
   pset (arrivals (ex_hist ++ [KmEvent false (0, 1); KmEvent false (0, 2); KmEvent false (0, 4); KmTick; KmTick; KmTick])) = [].
 Proof. exact fragment_no_stuck_keys_not_vacuous. Qed.
 Print Assumptions C01_fragment_not_vacuous.
+
+(* the same at the OS, through the kanata model (tick_ms / handle_keystate_changes): an observer replays everything the OS was
+   told, per key code (down after its press event -- key-down, or button-down for the mouse-button codes -- up after its release
+   event).  After any covered history it says "down" exactly for the visible codes (not in the ignored range, not a wheel code)
+   of the layered-keymap model's held key list; hence, once every pressed coordinate has been released and every event has been
+   applied, nothing is down at the OS *)
+From KV Require Import Proofs.C04Kanata Proofs.C01Kanata.
+Theorem C01_kanata_fragment_nothing_down_at_os : forall cfg pause is,
+  kfrag cfg -> hist_ok (kc_layout cfg) 0 is = true -> physical is = true ->
+  pending_after 0 is = 0%nat -> pset (arrivals is) = [] ->
+  exists outs, k_run cfg (k_init (init_layout pause)) is = Ok outs /\
+               forall x, os_code_down x (concat outs) false = false.
+Proof. exact kanata_fragment_nothing_down_at_os. Qed.
+Print Assumptions C01_kanata_fragment_nothing_down_at_os.
+
+Theorem C01_kanata_fragment_os_view_is_held_list : forall cfg pause is x,
+  kfrag cfg -> hist_ok (kc_layout cfg) 0 is = true -> physical is = true ->
+  exists outs, k_run cfg (k_init (init_layout pause)) is = Ok outs /\
+               os_code_down x (concat outs) false =
+               vis cfg x && mem_n x (km_keys (held (km_st (km_final (kc_layout cfg) km_init is)))).
+Proof. exact kanata_fragment_os_view_is_held_list. Qed.
+Print Assumptions C01_kanata_fragment_os_view_is_held_list.
